@@ -1,7 +1,7 @@
 package fsm
 
 // Fixed minimal histories of the recorded C01/C02 findings. `VERIF_MAKE_WITNESS=<corpus dir> go test -run
-// TestVerifMakeWitnesses` (re)writes them as replay files under <dir>/C01 and <dir>/C02; the Replay tests run them.
+// TestVerifC01MakeWitnesses` (re)writes them as replay files under <dir>/C01 and <dir>/C02; the Replay tests run them.
 
 import (
 	"encoding/json"
@@ -56,7 +56,8 @@ func verifWitnesses() []verifWitness {
 			vs.WPeeringGenerateToken(15, "2a000000-0000-4000-8000-000000000001", "peerA", "3a000000-0000-4000-8000-000000000003"),
 		}})
 	out = append(out, verifWitness{"C02", "witness-mesh-topology-peer-orphan", "C02/query=ServiceTopology/field=UpstreamDecisions",
-		"mesh-topology link of an imported proxy survives its deregistration online, not a restore", end(2), []*vs.FCmd{
+		"mesh-topology link of an imported proxy survives its deregistration online, not a restore", end(3), []*vs.FCmd{
+			vs.WCASetConfig(10),
 			vs.WRegister(11, "n1", "peerA", vs.WService("web-proxy", "web-proxy-1", "web", nil, "api")),
 			vs.WDeregNode(12, "n1", "peerA"),
 		}})
@@ -82,7 +83,7 @@ func verifWitnesses() []verifWitness {
 	return out
 }
 
-func TestVerifMakeWitnesses(t *testing.T) {
+func TestVerifC01MakeWitnesses(t *testing.T) {
 	dir := os.Getenv("VERIF_MAKE_WITNESS")
 	if dir == "" {
 		t.Skip("VERIF_MAKE_WITNESS not set")
